@@ -93,10 +93,14 @@ def run(tier, seed, build=True):
                 raise common.MachineryError("default schedule of %s left no trace: rc=%s %r" % (name, x0.rc, x0.err[-300:]))
             judge = make_judge(expected, x0.rc)
             budget = (25000, 40) if tier == "quick" else (400000, 1500)
-            st, viols = sched.explore(cfg, judge, mode="pruned", max_execs=budget[0], max_wall=budget[1])
-            # unpruned, deviation-bounded pass (sound whatever the fingerprint hides)
             dmax = 2 if tier == "quick" else 3
-            st2, viols2 = sched.explore(cfg, judge, mode="dev", max_dev=dmax, max_execs=budget[0], max_wall=budget[1])
+            try:
+                st, viols = sched.explore(cfg, judge, mode="pruned", max_execs=budget[0], max_wall=budget[1])
+                # unpruned, deviation-bounded pass (sound whatever the fingerprint hides)
+                st2, viols2 = sched.explore(cfg, judge, mode="dev", max_dev=dmax, max_execs=budget[0], max_wall=budget[1])
+            except common.MachineryError as e:
+                res.machinery.append(str(e))
+                continue
             per_cfg[name] = {"pruned": st.as_dict(), "dev<=%d" % dmax: st2.as_dict(), "messages_per_source": [len(m) for m in per_source]}
             common.log("[C06] %-6s pruned: %s" % (name, st.as_dict()))
             common.log("[C06] %-6s dev<=%d: %s" % (name, dmax, st2.as_dict()))
